@@ -577,6 +577,7 @@ fn run_forged(list: &[Forged]) -> Result<(Vec<(String, String)>, String), String
     // per forged message: was it entitled to reach an application (matched an exchange of its own session, or opened one)
     let mut entitled = vec![false; list.len()];
     let mut matched_honest_client = false;
+    let mut waiting_since: Option<u64> = None;
     // the peer of the first session sent an extra message on a live exchange of that session: what
     // becomes of that session is between the two of them, the rest of the node must be unaffected
     let mut own_session_misused = false;
@@ -613,12 +614,22 @@ fn run_forged(list: &[Forged]) -> Result<(Vec<(String, String)>, String), String
             let tm = if tnode == 0 { w.a.get() } else { w.b.get() };
             let rx_free = w.net.0.borrow().inbox[tnode].is_empty() && !tm.transport().verif_rx_occupied();
             if due && !rx_free {
-                // wait (time only; nothing is delivered, so the moment stays)
+                // wait (time only; nothing is delivered, so the moment stays). A message nobody
+                // picks up must be gone after the accept deadline / the owner's MRP deadline:
+                // a slot still occupied after 30 s is a wedged receive path.
+                let since = *waiting_since.get_or_insert(now);
+                if now > since + 30_000_000 {
+                    v.push(("C10:receive-slot-never-freed".to_string(), format!("the receive slot of the {} is still occupied 30 s after forged message #{} was delivered; forged {:?}", if tnode == 0 { "client" } else { "device" }, next.saturating_sub(1), list)));
+                    next = list.len();
+                    continue;
+                }
                 if let Some(t) = vclock::next_deadline() {
                     vclock::advance_to(t);
                     w.exec.run()?;
                     continue;
                 }
+            } else {
+                waiting_since = None;
             }
             if due && rx_free {
                 let eid = match f.eid {
